@@ -15,7 +15,7 @@ sys.path.insert(0, "/verif/tools")
 from vlib import common, gens  # noqa: E402
 
 DECODER_STREAMS = {"lines_hdr", "lines_ber", "lines_value", "lines_pdu", "lines_topy", "lines_msg", "lines_walk",
-                   "lines_oidstr", "lines_normalize"}
+                   "lines_oidstr", "lines_normalize", "lines_real"}
 
 
 def short(s, k=260):
